@@ -59,6 +59,19 @@ class Ref:
                 prev_map = recs; continue
             if p[1] == "dump":
                 continue
+            if p[1] == "actq":
+                # quiet form: `ADDEDQ yes|no n=<tracked aircraft>`
+                if not line.startswith("ADDEDQ"): continue
+                b = bytearray.fromhex(p[2]); df = get(b, 0, 5)
+                added = line.split()[1] == "yes"; n = int(line.split()[2].split("=")[1])
+                if df in (17, 18):
+                    k = "%06x" % get(b, 8, 24); was = k in self.recs
+                    if added != (not was): out.append((i, "C12", "added=%s but address %s was %stracked before" % (added, k, "" if was else "not ")))
+                    r = self.recs.setdefault(k, dict(count=0, last=0, even=None, odd=None, pos=None, cs=None, vel=None, pubs=[]))
+                    r["count"] += 1; r["last"] = self.now
+                elif added: out.append((i, "C12", "frame of DF%d reported as added" % df))
+                if n != len(self.recs): out.append((i, "C12", "%d aircraft tracked, %d distinct addresses were heard and none expired" % (n, len(self.recs))))
+                prev_map = None; continue
             # act
             b = bytearray.fromhex(p[2])
             if not line.startswith("ADDED"):
